@@ -815,8 +815,10 @@ STRLEN_IR = None  # built in World (synthetic model of libc strlen on PUBLIC mem
 
 
 class World:
-    def __init__(self, extra=EXTRA):
+    def __init__(self, extra=EXTRA, search=None, nofollow=None):
         self.extra = list(extra)
+        self.search = list(search) if search is not None else SEARCH_FILES
+        self.nofollow = set(nofollow) if nofollow is not None else NOFOLLOW
         self.tus = {}
         self.fn = {}            # name -> FnTr or synthetic dict
         self.order = []         # callee-first
@@ -839,27 +841,53 @@ class World:
         t = tu.resolve(qt(d))
         if "const" not in (qt_sugar(d) or ""):
             raise Unhandled("global %s is not const" % name)
-        if t[0] != "arr" or tu.resolve(t[1]) != ("int", 8, False):
-            raise Unhandled("global %s: only const octet tables are supported" % name)
+        et = tu.resolve(t[1]) if t[0] == "arr" else None
+        if t[0] != "arr" or et[0] != "int":
+            raise Unhandled("global %s: only const integer tables are supported" % name)
+        esz = et[1] // 8
         vals = []
         for c in d.get("inner", []):
             if c.get("kind") == "InitListExpr":
                 for x in c.get("inner", []):
-                    while x["kind"] in ("ImplicitCastExpr", "ParenExpr", "ConstantExpr", "CStyleCastExpr"):
-                        x = x["inner"][0]
-                    if x["kind"] != "IntegerLiteral":
-                        raise Unhandled("global %s initialiser %s" % (name, x["kind"]))
-                    vals.append(int(x["value"]) % 256)
-        if len(vals) != t[2]:
-            raise Unhandled("global %s: %d initialisers for %d elements" % (name, len(vals), t[2]))
+                    v = self.const_eval(tu, x, name) % (1 << (8 * esz))
+                    vals += [(v >> (8 * j)) & 255 for j in range(esz)]
+        if len(vals) != t[2] * esz:
+            raise Unhandled("global %s: %d initialiser octets for %d elements" % (name, len(vals), t[2]))
         a = self.gnext
         self.gnext += (len(vals) + 0xfff) // 0x1000 * 0x1000 + 0x1000
         self.globals_addr[key] = a
         self.globals_init.append((a, vals, name))
         return a
 
+    def const_eval(self, tu, x, name):
+        """value of a constant initialiser expression (C semantics: every node wrapped to its type)"""
+        k = x["kind"]
+        def wrap(v):
+            t = tu.resolve(qt(x))
+            if t[0] != "int":
+                raise Unhandled("global %s initialiser of type %s" % (name, qt(x)))
+            v %= 1 << t[1]
+            return v - (1 << t[1]) if (t[2] and v >= 1 << (t[1] - 1)) else v
+        if k in ("ImplicitCastExpr", "ParenExpr", "ConstantExpr", "CStyleCastExpr"):
+            v = self.const_eval(tu, x["inner"][0], name)
+            return v if k in ("ParenExpr", "ConstantExpr") else wrap(v)
+        if k == "IntegerLiteral":
+            return int(x["value"])
+        if k == "UnaryOperator" and x["opcode"] in ("-", "~", "+"):
+            v = self.const_eval(tu, x["inner"][0], name)
+            return wrap({"-": -v, "~": ~v, "+": v}[x["opcode"]])
+        if k == "BinaryOperator" and x["opcode"] in ("<<", ">>", "|", "&", "^", "+", "-", "*"):
+            a = self.const_eval(tu, x["inner"][0], name)
+            b = self.const_eval(tu, x["inner"][1], name)
+            op = x["opcode"]
+            if op in ("<<", ">>") and not (0 <= b < 128):
+                raise Unhandled("global %s: shift count" % name)
+            return wrap({"<<": lambda: a << b, ">>": lambda: a >> b, "|": lambda: a | b, "&": lambda: a & b, "^": lambda: a ^ b,
+                         "+": lambda: a + b, "-": lambda: a - b, "*": lambda: a * b}[op]())
+        raise Unhandled("global %s initialiser %s" % (name, k))
+
     def find(self, name):
-        for src in SEARCH_FILES:
+        for src in self.search:
             if not os.path.exists(os.path.join(REPO, src)):
                 continue
             t = self.tu(src)
@@ -883,7 +911,7 @@ class World:
             if d is None:
                 raise Unhandled("function %s not found in %s" % (name, src))
         else:
-            t, d = (None, None) if name in NOFOLLOW else self.find(name)
+            t, d = (None, None) if name in self.nofollow else self.find(name)
         if d is None:
             if name not in self.exts:
                 self.exts.append(name)
@@ -1124,7 +1152,35 @@ def strlen_body():
                 ("ret", ("var", 1))])
 
 
-def build(extra=EXTRA):
+# block primitives, checked in the branches-only observation model (safe.h: table look-ups indexed by
+# secret octets are "not yet counted"; branches are)
+PRIM_ROOTS = [("src/crypto/belt/belt_block.c", "beltBlockEncr"), ("src/crypto/belt/belt_block.c", "beltBlockEncr2"),
+              ("src/crypto/belt/belt_block.c", "beltBlockEncr3"),
+              ("src/crypto/belt/belt_block.c", "beltBlockDecr"), ("src/crypto/belt/belt_block.c", "beltBlockDecr2"),
+              ("src/crypto/belt/belt_block.c", "beltBlockDecr3"),
+              ("src/crypto/belt/belt_compr.c", "beltCompr"), ("src/crypto/belt/belt_compr.c", "beltCompr2"),
+              ("src/crypto/belt/belt_lcl.c", "beltPolyMul"), ("src/crypto/belt/belt_lcl.c", "beltBlockMulC"),
+              ("src/crypto/bash/bash_f64.c", "bashF"),
+              # beltPolyMul -> ppMul(.., n, .., n) dispatches on the PUBLIC length n = W_OF_B(128) through a table of
+              # function pointers to ppMul2 (64-bit words) / ppMul4 (32-bit words): the dispatch is opaque, the
+              # multiplication routines that it selects are roots
+              ("src/math/pp/pp_mul.c", "ppMul1"), ("src/math/pp/pp_mul.c", "ppMul2"), ("src/math/pp/pp_mul.c", "ppMul4")]
+PRIM_FILES = ["src/crypto/belt/belt_block.c", "src/crypto/belt/belt_compr.c", "src/crypto/belt/belt_lcl.c",
+              "src/crypto/bash/bash_f64.c", "src/math/pp/pp_mul.c", "src/math/pp/pp_red.c", "src/math/ww.c", "src/core/mem.c",
+              "src/core/u32.c", "src/core/u64.c"]
+PRIM_OPAQUE = ["ppMul"]
+
+
+def build(extra=EXTRA, prim=False):
+    if prim:
+        W = World(extra, search=PRIM_FILES, nofollow=PRIM_OPAQUE)
+        roots = []
+        for src, name in PRIM_ROOTS:
+            W.add(name, src)
+            if name not in W.fn:
+                raise Unhandled("primitive %s not translated" % name)
+            roots.append(name)
+        return finish_build(W, roots, [])
     W = World(extra)
     roots = []
     safes = safe_routines()
@@ -1142,6 +1198,10 @@ def build(extra=EXTRA):
             raise Unhandled("anchored file missing: " + src)
         W.add(name, src)
         roots.append(name)
+    return finish_build(W, roots, safes)
+
+
+def finish_build(W, roots, safes):
     # check memory classes of pointer arguments against the callee's parameters
     W.sig = {}
     funs = []
@@ -1183,8 +1243,9 @@ def build(extra=EXTRA):
     return W, funs, roots, safes
 
 
-def generate(extra=EXTRA, module="C14IR"):
-    W, funs, roots, safes = build(extra)
+def generate(extra=EXTRA, module="C14IR", prim=False):
+    W, funs, roots, safes = build(extra, prim)
+    opaque = PRIM_OPAQUE if prim else OPAQUE
     idx = {"fun": {f["name"]: i for i, f in enumerate(funs)}, "ext": {n: i for i, n in enumerate(W.exts)}}
     out = []
     out.append("/- GENERATED by xlate/x_c14_ir.py from the C sources of /repo — do not edit.")
@@ -1205,7 +1266,7 @@ def generate(extra=EXTRA, module="C14IR"):
         out.append("")
     out.append("def extNames : List String := [%s]" % ", ".join('"%s"' % n for n in W.exts))
     out.append("def prog : Prog := { funs := [%s], allowExt := [%s] }" % (
-        ", ".join("f_" + f["name"] for f in funs), ", ".join(str(idx["ext"][n]) for n in W.exts if n in OPAQUE)))
+        ", ".join("f_" + f["name"] for f in funs), ", ".join(str(idx["ext"][n]) for n in W.exts if n in opaque)))
     out.append("def names : List (String × Nat × Bool) := [%s]" % ", ".join(
         '("%s", %d, %s)' % (f["name"], f["ret"][0], "true" if f["ret"][1] else "false") for f in funs))
     out.append("def roots : List String := [%s]" % ", ".join('"%s"' % r for r in roots))
@@ -1217,20 +1278,21 @@ def generate(extra=EXTRA, module="C14IR"):
     return "\n".join(out) + "\n", W, funs, roots, safes
 
 
-def generate_obl(funs, module="C14IR", ns="Obl"):
+def generate_obl(funs, module="C14IR", ns="Obl", strict=True):
     """per-routine obligations `ctFun prog true f_<name> = true` (kernel evaluation of the checker)"""
     out = ["/- GENERATED by xlate/x_c14_ir.py — per-routine obligations of property C14: the body of each",
            "   routine extracted from the current C source is accepted by the verified checker. -/",
            "import Bee2V.C14.IR", "import Bee2V.Gen.%s" % module, "namespace Bee2V.C14.%s" % ns,
            "open Bee2V.C14.IR Bee2V.Gen.%s" % module, ""]
     for f in funs:
-        out.append("theorem ct_%s : ctFun prog true f_%s = true := by decide" % (f["name"], f["name"]))
+        out.append("theorem ct_%s : ctFun prog %s f_%s = true := by decide" % (f["name"], "true" if strict else "false", f["name"]))
     out.append("end Bee2V.C14.%s" % ns)
     return "\n".join(out) + "\n"
 
 
-def diagnose(funs, W):
+def diagnose(funs, W, strict=True, opaque=None):
     """Python mirror of the Lean checker, only to NAME what is rejected (the verdict is Lean's)."""
+    opaque = OPAQUE if opaque is None else opaque
     sig = {f["name"]: f for f in funs}
     msgs = []
     for f in funs:
@@ -1240,7 +1302,7 @@ def diagnose(funs, W):
             if k in ("land", "lor", "cond"):
                 if lab(e[1], pubv):
                     msgs.append("%s: `%s` on a secret value (%s)" % (f["name"], {"land": "&&", "lor": "||", "cond": "?:"}[k], where))
-            if k == "load" and lab(e[3], pubv):
+            if k == "load" and strict and lab(e[3], pubv):
                 msgs.append("%s: load at a secret address (%s)" % (f["name"], where))
             for x in e[1:]:
                 if isinstance(x, tuple) and x and isinstance(x[0], str) and x[0] in ("un", "bin", "cast", "load", "land", "lor", "cond"):
@@ -1251,7 +1313,7 @@ def diagnose(funs, W):
                 ce(s[2], "assignment")
             elif k == "store":
                 ce(s[3], "store"); ce(s[4], "store")
-                if lab(s[3], pubv):
+                if lab(s[3], pubv) and (strict or s[1]):
                     msgs.append("%s: store at a secret address" % f["name"])
             elif k == "seq":
                 cs(s[1]); cs(s[2])
@@ -1272,7 +1334,7 @@ def diagnose(funs, W):
                     ce(a, "argument")
                 cal = sig.get(s[2])
                 if cal is None:
-                    if s[2] not in OPAQUE:
+                    if s[2] not in opaque:
                         msgs.append("%s: call of external routine `%s` (not a regular routine of the checked set)" % (f["name"], s[2]))
                 else:
                     cp = set(cal["pubv"])
